@@ -776,6 +776,10 @@ def _g7(ck, fns):
                                     base = m[0]
                         ok = False
                         guard_txt = []
+                        # a negative kth counts from the end: -k is in bounds whenever k <= size, in particular under k < size
+                        neg = T.p_neg(kth)
+                        if neg[0] in ("v", "attr", "idx") or (neg[0] == "poly" and all(c > 0 for _, c in T.to_poly(neg).items())):
+                            kth = neg
                         for f, tv in f2.items():
                             if tv is True and f[0] == "lt" and T.contains(f, kth):
                                 guard_txt.append(T.show(f))
